@@ -812,6 +812,12 @@ def _uncollapse_unary_chains(tree):
         ind = tree.data['label'].find("+")
         unary = trees.Tree(tree.data)
         unary.data['label'] = tree.data['label'][:ind]
+        if not trees.has_children(tree):
+            # the chain ends in a terminal: word, lemma and position
+            # belong to the terminal only, not to the nodes above it
+            unary.data['word'] = trees.DEFAULT_WORD
+            unary.data['lemma'] = trees.DEFAULT_LEMMA
+            unary.data.pop('num', None)
         tree.data['label'] = tree.data['label'][ind + 1:]
         if tree.parent is not None:
             tree.parent.children.remove(tree)
